@@ -586,3 +586,12 @@ def m10(ctx):
 
 
 RULES.append(m10)
+
+
+@rule("M12", doc="a freshly created e-node gets the FULL work-list pass (C14.A4 singleton-queued-full): the pass that derives its self-symmetries — a parent created over differently permuted invocations of an already symmetric class otherwise keeps a trivial group, two spellings of one term compare unequal and a rule with a repeated variable does not fire on a represented instance")
+def m12_a4(ctx):
+    from . import c14
+    c14.a4(ctx)
+
+
+RULES.append(m12_a4)
